@@ -134,12 +134,11 @@ func (c *codec) DecodeRawBody(header *Header, source io.Reader) (body []byte, er
 	} else if header.BodyLength == 0 {
 		return []byte{}, nil
 	}
-	count := int64(header.BodyLength)
-	buf := bytes.NewBuffer(make([]byte, 0, count))
-	if _, err := io.CopyN(buf, source, count); err != nil {
+	if body, err := primitive.ReadContent(source, header.BodyLength); err != nil {
 		return nil, fmt.Errorf("cannot decode raw body: %w", err)
+	} else {
+		return body, nil
 	}
-	return buf.Bytes(), nil
 }
 
 func (c *codec) DiscardBody(header *Header, source io.Reader) (err error) {
